@@ -10,16 +10,16 @@ CLAIMED = {
  "C04": ("5.4", "Weighted-mean lemmas (hull, constant, monotone, affine) and closed forms of Ema (recursion for every input) and Alma (Gaussian insertion-index kernel), giving hull/constant/monotone/affine for Sma, Ema, Alma at every step. Tie: single and paired runs on the implementation, exact; batch recursion/kernel specs.", T),
  "C05": ("5.5", "Rsi and MyRSI closed forms in G and L over the N most recent changes (all N>=1, all histories), warm-up, rising/falling/flat corollaries, negation laws. Tie: implementation vs batch G/L spec, exact; negation pairs.", T),
  "C06": ("5.6", "CTI = Pearson on full windows, NET = Kendall tau over all pairs with ties 0, CoG formula; affine windows give +-1, monotone windows give the sign (CTI) / +-1 (NET), negation, order-only. The clause 'CTI is +1 on any strictly increasing window' is refuted (cti_monotone_refuted) and carried as known finding W1. Tie: batch correlation specs on the implementation, exact.", T),
- "C07": ("5.7", "Range theorems at R at every step for every listed view (Rsi, MyRSI, HLN, CTI, NET, LaguerreRSI, entropy, EFT <= ln199, Welford >= 0, Vsct Samuelson bound, hull of Sma/Alma/Min/Max, Drawdown [0,1) monotone, CoG); PFE's range is refuted (known finding W4). f64 'few ulps' clause: kernel-checked refutations on model@float (Rsi, MyRSI, CTI, Vsct) as known findings; other views searched on the implementation at f64, not proved.", T + "; f64 ulps clause partly by vm_compute refutations on primitive floats, rest exploration"),
+ "C07": ("5.7", "Range theorems at R at every step for every listed view (Rsi, MyRSI, HLN, CTI, NET, LaguerreRSI, entropy, EFT <= ln199, Welford >= 0, Vsct Samuelson bound, hull of Sma/Alma/Min/Max, Drawdown [0,1) monotone, CoG); PFE's range is refuted (known finding W4). f64 'few ulps' clause: kernel-checked refutation on model@float (Vsct) as known finding, positive float-level theorems for CTI, Rsi, Min/Max/GTE/LTE; other views searched on the implementation at f64, not proved.", T + "; f64 ulps clause partly by vm_compute refutations on primitive floats, rest exploration"),
  "C08": ("5.8", "For every descriptor tree satisfying the guards (okd): readiness never reverts and no error (readiness_never_reverts, good_denote); exact warm-up indices for all listed views; starved wrappers keep their answer. Tie: first-value index, None-prefix shape, starved chains and 400-step f64 runs on the implementation.", T),
  "C09": ("5.9", "BIBO with explicit gains and geometric fading (explicit rate, or epsilon form for Roofing) for Ema, LaguerreFilter, SuperSmoother (quadratic-form norm), Roofing (pole < 1 for all N>=2), CyberCycle (all N>=3); |TrendFlex|,|ReFlex| <= 5, |EFT| <= ln199, gain composition. LaguerreRSI fading on constant tails is refuted for all steps (known finding W3); fading of the normalised TrendFlex/ReFlex/LaguerreRSI outputs on non-degenerate tails is only searched (long f64 runs), not proved.", T + "; normalised-output fading only explored"),
  "C10": ("5.10", "Superposition theorems (cout on a*x+b*y = a*out(x)+b*out(y)) for all eight linear views, all N / gamma; DC gains: exact reproduction (Sma, Ema, Alma, Laguerre), SuperSmoother converges, Roofing and CyberCycle(N>=6) decay to 0 after any prefix; CyberCycle N in {4,5} refuted (known finding D11).", T),
  "C11": ("5.11", "Streaming = batch difference equations at every history for SuperSmoother, Roofing, LaguerreFilter, CyberCycle (N>=6; all N>=3 against the generalised spec), TrendFlex, ReFlex, LaguerreRSI, EFT and PFE (for any MA view, through the list the MA receives); coefficients as functions of N only. Tie: implementation vs python batch re-evaluation with shared surrogate exp/cos/sin, exact.", T),
- "C12": ("5.12", "Invariance theorems under a*x+b, a*x, -x for every view the property names (proved on the closed forms); Vst on flat windows (W2) and CTI before its window is full (D15) are refuted and carried as known findings. f64 bit-exactness for powers of two is not proved (explored only at the exact scalar).", T),
+ "C12": ("5.12", "Invariance theorems under a*x+b, a*x, -x for every view the property names (proved on the closed forms); Vst on flat windows (W2) is refuted and carried as a known finding; the power-of-two f64 clause is proved for every listed view at any radix-2 FLX format (binary64 without underflow/overflow).", T),
  "C13": ("5.13", "WelfordRolling mean/std (population), Drawdown (= max over j of (peak_j - x_j)/peak_j, proved equal to the literal definition), LnReturn closed forms for all positive streams. Tie: batch definitions on the implementation, exact.", T),
  "C14": ("5.14", "Theorems over the generic model (any scalar, any child views): each combinator's output list is the pointwise lift of its children's output lists, GTE/LTE hold only while the child is silent, the combinator state is the tuple of child states. Tie: exact-rational and f64-bit pointwise recomputation on the implementation.", T),
- "C15": ("5.15", "no_panic: for every descriptor tree whose window lengths meet the guards (okd) and every in-domain input list the model run has no Err (index, underflow, unwrap, division, sqrt/ln domain); constructors reject what update() cannot handle (new_rejects). Tie: Err in the model iff panic/non-finite in the code at the same step (exact scalar with debug assertions), f64 debug+release runs N up to 64. f64-only failure of Rsi (D14) is a kernel-checked refutation on model@float and a known finding.", T),
- "C16": ("5.16", "Partial by nature. Exact half: flat-window answers proved at R for every listed view. Float half: model@float (PrimFloat) is the same generic model; 250 recorded f64 runs of the code are reproduced bit-for-bit inside Coq (flt_cases_green); kernel-checked refutations (Rsi, MyRSI, Vst, Vsct stuck for ever on flat windows) are known findings; standard-model drift bounds for the Sma/Cumulative running sums (with the Flocq binary64 discharge). Everything else (1e-6 tracking over 2e4-step streams, all views) is a search on the implementation against the exact scalar, reported as exploration.", "Rocq proof (exact half, vm_compute refutations on primitive floats, Flocq drift bounds) + f64-vs-exact search"),
+ "C15": ("5.15", "no_panic: for every descriptor tree whose window lengths meet the guards (okd) and every in-domain input list the model run has no Err (index, underflow, unwrap, division, sqrt/ln domain); constructors reject what update() cannot handle (new_rejects). Tie: Err in the model iff panic/non-finite in the code at the same step (exact scalar with debug assertions), f64 debug+release runs N up to 64. The former f64-only failure of Rsi (D14: -inf / debug panic) was repaired; rsi_flat_f64 proves the flat-window answer at the primitive-float instance.", T),
+ "C16": ("5.16", "Partial by nature. Exact half: flat-window answers proved at R for every listed view. Float half: model@float (PrimFloat) is the same generic model; 250 recorded f64 runs of the code are reproduced bit-for-bit inside Coq (flt_cases_green); kernel-checked refutations (Vst, Vsct stuck for ever on flat windows: WelfordOnline residue) are known findings, the Rsi/MyRSI ones were repaired and are now positive theorems for all streams (rsi_flat_f64, myrsi_flat_f64); bridge theorems (PrimFloat run = binary64-rounded run under finiteness) and standard-model drift bounds for the Sma/Cumulative running sums (with the Flocq binary64 discharge). Everything else (1e-6 tracking over 2e4-step streams, all views) is a search on the implementation against the exact scalar, reported as exploration.", "Rocq proof (exact half, vm_compute refutations on primitive floats, Flocq drift bounds) + f64-vs-exact search"),
  "C17": ("5.17", "Schedule semantics over instance tables: every observation equals vlast at the state reached by that instance's update lineage (sched_run_lineage, lineage_obs), last() is pure and erasable, same lineage => same observation, clone and instance independence. Generic, axiom-free. Tie: random update/last/clone schedules on the implementation compared with fresh instances fed the lineage (exact and f64 bits) and with the model's schedule semantics; static scan for shared/interior-mutable state.", T),
  "C18": ("5.18", "pop_bound_sound: for every descriptor tree and every input list the number of buffered elements is <= pop_bound(descriptor), a function of the window lengths only (generic, axiom-free). Tie: Debug-dump element counts of the implementation at every step against the proved bound, long runs for constancy, live heap bytes at L, 2L, 4L with a counting allocator (measurement).", T + "; allocator measurement as supporting exploration"),
 }
